@@ -229,12 +229,13 @@ def one(cfg, state_kind, draws, readonly, shared=None):
             shared["list"] = kw["projections"]
             shared["len0"] = len(kw["projections"])
         kw["projections"] = shared["list"]
-    x0 = b.x0.copy()
+    x0 = b.x0 if "x0_view" in b.forms else b.x0.copy()       # a view stays the caller's view
     pristine = dict(x0=x0.copy())
     if "bounds" in kw:
         lo, hi = kw["bounds"]
-        lo = None if lo is None else lo.copy()
-        hi = None if hi is None else hi.copy()
+        if "bounds_view" not in b.forms:
+            lo = None if lo is None else lo.copy()
+            hi = None if hi is None else hi.copy()
         kw["bounds"] = (lo, hi)
         pristine["lo"] = None if lo is None else lo.copy()
         pristine["hi"] = None if hi is None else hi.copy()
@@ -265,6 +266,8 @@ def one(cfg, state_kind, draws, readonly, shared=None):
                 mod.append("%s bound array changed" % nm)
     if dict(up) != pristine["up"] or up.mutations:
         mod.append("user_params mutated (%s)" % (up.mutations or "content differs"))
+    for v in oracles.form_violations(run):
+        mod.append(v["msg"])
     return run, mod
 
 
@@ -315,8 +318,20 @@ def run_case(case):
     viol = res["viol"]
     runs = []
     shared = {} if cfg.get("proj") else None
+    formed = None
+    if not control and case["i"] % 3 == 1:
+        # the second call passes the SAME values in another legitimate form (strided views, numpy scalars in user_params) to a residual
+        # function that behaves differently towards its argument / return value (returns a list or one re-used buffer, overwrites or
+        # keeps the x it was handed): the sequence and the result must still be those of the first call, bit for bit
+        import copy
+        forms = gen.sample_forms(np.random.default_rng([int(case["seed"]), NUM, int(case["i"]), 8]))
+        formed = copy.deepcopy(cfg)
+        formed["_forms"] = forms
+        st["triples_with_formed_call"] = 1
+        for f_ in forms:
+            st["form|" + f_] = st.get("form|" + f_, 0) + 1
     for k in range(3):
-        run, mod = one(cfg, k, 1 + (case["i"] * 7) % 23, readonly=(k == 2 and not control), shared=shared)
+        run, mod = one(formed if (formed is not None and k == 1) else cfg, k, 1 + (case["i"] * 7) % 23, readonly=(k == 2 and not control), shared=shared)
         if k == 0 and shared is not None and run.exc is None:
             # between run 1 and run 2: a DIFFERENT call that re-uses the caller's list (other bounds). Whatever it does, the
             # repeat of the first call afterwards must still give the first call's sequence
